@@ -197,6 +197,21 @@ func (en *Env) eval(e Expr) Term {
 			en.wantBool(body, x.Body)
 			return Term{fmt.Sprintf("(forall ((%s Int)) %s)", v, implies(not(app("=", v, "0")), body.S)), SBool, tBool}
 		}
+		if mc, ok := x.Lo.(ECall); ok && x.Hi == nil && mc.Fun == "$mapdom" {
+			m := en.eval(mc.Args[0])
+			mt, ok := types.Unalias(m.Ty).Underlying().(*types.Map)
+			if !ok {
+				en.fail("allkeys: not a map")
+			}
+			ks := c.ss.SortOf(mt.Key())
+			v := fmt.Sprintf("%s!k%d", x.Var, en.depth)
+			sub := en.with(map[string]Term{x.Var: {v, ks, mt.Key()}})
+			sub.depth = en.depth + 1
+			body := sub.eval(x.Body)
+			en.wantBool(body, x.Body)
+			in := and(not(app("=", m.S, "0")), app("select", app("select", c.heapGet(en.cur, mapDomKey(m.Ty)), m.S), v))
+			return Term{fmt.Sprintf("(forall ((%s %s)) %s)", v, ks, implies(in, body.S)), SBool, tBool}
+		}
 		lo := en.eval(x.Lo)
 		hi := en.eval(x.Hi)
 		v := fmt.Sprintf("%s!q%d", x.Var, en.depth)
@@ -798,6 +813,22 @@ func (en *Env) EvalLValue(e Expr) (loc assignLoc, err error) {
 				base := en.eval(x.Args[0])
 				return assignLoc{keys: []string{key}, ref: base.S}, nil
 			}
+		case "anyghost": // ghost field of every object
+			id, ok := x.Args[0].(EIdent)
+			if !ok {
+				en.fail("anyghost(name)")
+			}
+			sd := en.c.eng.cs.LookupSpec(en.pkg, id.Name)
+			if sd == nil || !sd.Ghost {
+				en.fail("anyghost: %s is not a ghost field", id.Name)
+			}
+			resTy, err := en.c.eng.resolveType(sd.PkgPath, sd.Result)
+			if err != nil {
+				en.fail("%v", err)
+			}
+			key := ghostKey(sd)
+			keyTypes[key] = resTy
+			return assignLoc{keys: []string{key}, all: true}, nil
 		case "anymapof": // contents of every map of the given type
 			ts, ok := x.Args[0].(EStr)
 			if !ok {
